@@ -58,6 +58,8 @@ pub struct World {
     pub store_locks_created: usize,
     pub filter: Filter,
     pub last_metrics_task: Option<usize>,
+    /// address of the metrics atomic that task touched last (a second access to the SAME atomic is a point)
+    pub last_metrics_addr: usize,
     pub workers_spawned: usize,
     pub workers_finished: usize,
     pub points: u64,
@@ -81,6 +83,7 @@ impl World {
             store_locks_created: 0,
             filter: Filter::default(),
             last_metrics_task: None,
+            last_metrics_addr: 0,
             workers_spawned: 0,
             workers_finished: 0,
             points: 0,
